@@ -444,6 +444,15 @@ class TSPkoptEnv(ImprovementEnvBase):
             == solution.data.sort(1)[0]
         ).all(), "Not visiting all nodes"
 
+        # a permutation of the nodes may still consist of several sub-cycles: follow the successors from node 0
+        visited = torch.zeros_like(solution, dtype=torch.bool)
+        arange = torch.arange(batch_size, device=solution.device)
+        pre = torch.zeros(batch_size, dtype=torch.long, device=solution.device)
+        for _ in range(graph_size):
+            pre = solution[arange, pre]
+            visited[arange, pre] = True
+        assert visited.all(), "Solution is not a single tour through all nodes"
+
     def get_mask(self, td):
         # return mask that is 1 if the corresponding action is feasible, 0 otherwise
         visited_time = td["visited_time"]
